@@ -217,7 +217,7 @@ def catalogue(func):
             'block': bid, 'err': cf.strip_casts(err).get('enum') or lv(err), 'errval': cf.evalc(err),
             'ret': cf.evalc(ret) if ret is not None else None,
             'cond': canon(own[1]) if own else None, 'ctx': sorted(ctx), 'cases': cctx.get(bid, {}),
-            'loc': cev.get('sloc') or cev['loc'], 'unconditional': own is None,
+            'loc': cev.get('sloc') or cev['loc'], 'unconditional': own is None, 'expr': own[1] if own else None,
         }
         out.append(g)
     return out
